@@ -87,6 +87,7 @@ def cases_requests(tier):
 
 
 def scn_requests(T, case):
+    PFX = case.get("prefix", "C06")
     R, P, N, B, K, J = case["R"], case["P"], case["N"], case["B"], case["K"], 1
     ch = H.Chain(T, stubs={(MG, "_invert_linear_equations"): H.InvertContract(T)} if T.symbolic else None)
     x = T.real("x", (N,) if B == 1 else (B, N))
@@ -120,9 +121,11 @@ def scn_requests(T, case):
             # batch row of a function request: rows come as (vector b, realization r) with r fastest
             state["b_of_row"] = [k // R for k in range(variables.shape[0])] if context.perturbations is None else None
             res = super().__call__(variables, context)
-            tag = np.arange(float(variables.shape[0])) + 100.0 * len(infos)  # the evaluator's own bookkeeping array
+            buf = np.arange(float(variables.shape[0])) + 100.0 * len(infos)  # the evaluator's own bookkeeping buffer ...
+            tag = buf[:]
+            tag.setflags(write=False)  # ... handed out as a read-only view (the buffer itself is reused by the evaluator)
             res.evaluation_info = {"tag": tag}
-            infos.append((tag, tag.copy()))
+            infos.append((buf, buf.copy()))
             return res
 
     cfg = H.make_config(T, R, J, K, N, weights=w, ow=T.const(np.array([1.0])), P=P, min_success=1, pert_min_success=1, magnitudes=T.const(np.ones(N)))
@@ -149,11 +152,11 @@ def scn_requests(T, case):
         r2 = ev.calculate(x, compute_functions=False, compute_gradients=True)
         results = tuple(r1) + tuple(r2)
         expect_calls = [[("f", 0, r) for r in range(R)], [("g", r, p) for r in range(R) for p in range(P)]]
-    T.prove("C06.requests.one_evaluator_call_per_evaluation", len(sev.calls) == len(expect_calls))
+    T.prove(PFX + ".requests.one_evaluator_call_per_evaluation", len(sev.calls) == len(expect_calls))
     xs = [x] if B == 1 else [x[b] for b in range(B)]
     for call, expect in zip(sev.calls, expect_calls):
         V = call["variables"]
-        T.prove("C06.requests.exactly_the_needed_rows", V.shape[0] == len(expect) and len(call["realizations"]) == len(expect))
+        T.prove(PFX + ".requests.exactly_the_needed_rows", V.shape[0] == len(expect) and len(call["realizations"]) == len(expect))
         if V.shape[0] != len(expect):
             continue
         # completeness: the multiset of labels is exactly the needed combinations, each once
@@ -162,49 +165,49 @@ def scn_requests(T, case):
             r, p = call["realizations"][k], call["perturbations"][k]
             labels.append(("f", None, r) if p is None or p < 0 else ("g", r, p))
         want_labels = [("f", None, e[2]) if e[0] == "f" else e for e in expect]
-        T.prove("C06.requests.every_needed_combination_is_requested_exactly_once", sorted(map(str, labels)) == sorted(map(str, want_labels)))
+        T.prove(PFX + ".requests.every_needed_combination_is_requested_exactly_once", sorted(map(str, labels)) == sorted(map(str, want_labels)))
         has_pert = any(e[0] == "g" for e in expect)
-        T.prove("C06.requests.perturbation_labels_present_iff_perturbed_rows_are_requested", (call["context"].perturbations is not None) == has_pert)
+        T.prove(PFX + ".requests.perturbation_labels_present_iff_perturbed_rows_are_requested", (call["context"].perturbations is not None) == has_pert)
         # labels match the vector carried by the row, in user coordinates
         for k in range(len(expect)):
             r, p = call["realizations"][k], call["perturbations"][k]
             if p is None or p < 0:
                 b = k // R if case["kind"] == "functions" else 0
-                T.prove("C06.requests.unperturbed_rows_carry_the_user_domain_vector", T.same(V[k], user(xs[b])))
+                T.prove(PFX + ".requests.unperturbed_rows_carry_the_user_domain_vector", T.same(V[k], user(xs[b])))
             else:
-                T.prove("C06.requests.perturbed_rows_carry_the_labelled_user_domain_perturbation", T.same(V[k], user(px(r, p))))
+                T.prove(PFX + ".requests.perturbed_rows_carry_the_labelled_user_domain_perturbation", T.same(V[k], user(px(r, p))))
     # every reported per-realization value is the (transformed) evaluator value for that label; rows of a failed realization are NaN
     ok_rows = [r for r in range(R) if not (fail and r == 0)]
     for ridx, res in enumerate(results):
         e = res.evaluations
         if hasattr(e, "perturbed_objectives"):
-            T.prove("C06.values.perturbed_values_are_the_evaluator_values_of_the_labelled_rows",
+            T.prove(PFX + ".values.perturbed_values_are_the_evaluator_values_of_the_labelled_rows",
                     T.all([T.same(e.perturbed_objectives[r, p], to_o(tabO[0, r, p + 1])) for r in ok_rows for p in range(P)])
                     & (T.all([T.same(e.perturbed_constraints[r, p], to_o(tabC[0, r, p + 1])) for r in ok_rows for p in range(P)]) if K else True))
-            T.prove("C06.values.reported_perturbed_variables_are_those_evaluated", T.all([T.same(e.perturbed_variables[r, p], px(r, p)) for r in range(R) for p in range(P)]))
+            T.prove(PFX + ".values.reported_perturbed_variables_are_those_evaluated", T.all([T.same(e.perturbed_variables[r, p], px(r, p)) for r in range(R) for p in range(P)]))
             if fail:
-                T.prove("C06.values.rows_of_failed_entries_are_nan", T.all([T.np.isnan(e.perturbed_objectives[0, p, 0]) for p in range(P)]) & (T.all([T.np.isnan(e.perturbed_constraints[0, p, 0]) for p in range(P)]) if K else True))
+                T.prove(PFX + ".values.rows_of_failed_entries_are_nan", T.all([T.np.isnan(e.perturbed_objectives[0, p, 0]) for p in range(P)]) & (T.all([T.np.isnan(e.perturbed_constraints[0, p, 0]) for p in range(P)]) if K else True))
         else:
             b = ridx if case["kind"] == "functions" else 0
-            T.prove("C06.values.function_values_are_the_evaluator_values_of_the_labelled_rows",
+            T.prove(PFX + ".values.function_values_are_the_evaluator_values_of_the_labelled_rows",
                     T.all([T.same(e.objectives[r], to_o(tabO[b, r, 0])) for r in ok_rows]) & (T.all([T.same(e.constraints[r], to_o(tabC[b, r, 0])) for r in ok_rows]) if K else True))
-            T.prove("C06.values.reported_variables_are_those_evaluated", T.same(e.variables, xs[b]))
+            T.prove(PFX + ".values.reported_variables_are_those_evaluated", T.same(e.variables, xs[b]))
             if fail:
-                T.prove("C06.values.rows_of_failed_entries_are_nan", T.np.isnan(e.objectives[0, 0]) & (T.np.isnan(e.constraints[0, 0]) if K else True))
-        T.prove("C06.values.evaluation_info_is_reported", "tag" in e.evaluation_info)
+                T.prove(PFX + ".values.rows_of_failed_entries_are_nan", T.np.isnan(e.objectives[0, 0]) & (T.np.isnan(e.constraints[0, 0]) if K else True))
+        T.prove(PFX + ".values.evaluation_info_is_reported", "tag" in e.evaluation_info)
     # frame: the evaluator's own object and arrays are untouched; results hold fresh read-only arrays
     roots = []
     for res_obj, objs, cons, objs0, cons0 in sev.returned:
-        T.prove("C06.frame.evaluator_result_object_not_assigned", res_obj.objectives is objs and res_obj.constraints is cons)
-        T.prove("C06.frame.evaluator_arrays_not_written", T.same(objs, objs0) & (T.same(cons, cons0) if cons is not None else True))
+        T.prove(PFX + ".frame.evaluator_result_object_not_assigned", res_obj.objectives is objs and res_obj.constraints is cons)
+        T.prove(PFX + ".frame.evaluator_arrays_not_written", T.same(objs, objs0) & (T.same(cons, cons0) if cons is not None else True))
         roots += [id(_root(objs))] + ([id(_root(cons))] if cons is not None else [])
     for tag, tag0 in infos:
-        T.prove("C06.frame.evaluator_arrays_not_written", bool(np.array_equal(tag, tag0)), "evaluation_info")
+        T.prove(PFX + ".frame.evaluator_arrays_not_written", bool(np.array_equal(tag, tag0)), "evaluation_info")
         roots.append(id(_root(tag)))
     for res in results:
         for name, arr in _all_arrays(res):
-            T.prove("C06.frame.result_arrays_are_read_only", not arr.flags.writeable, name)
-            T.prove("C06.frame.result_arrays_do_not_alias_the_evaluator_arrays", id(_root(arr)) not in roots, name)
+            T.prove(PFX + ".frame.result_arrays_are_read_only", not arr.flags.writeable, name)
+            T.prove(PFX + ".frame.result_arrays_do_not_alias_the_evaluator_arrays", id(_root(arr)) not in roots, name)
 
 
 # ------------------------------------------------------------------------------------ activity flags
@@ -250,6 +253,56 @@ def scn_activity(T, case):
             T.prove("C06.activity.split_gradient.active_iff_in_force_weight_non_zero", T.all([T.implies(ao[j, r], ~(ow[j, r] == 0) if T.symbolic else ow[j, r] != 0), T.implies(ow[j, r] == 0, ~ao[j, r] if T.symbolic else not ao[j, r])]))
         for k in range(K):
             T.prove("C06.activity.split_gradient.active_iff_in_force_weight_non_zero", T.all([T.implies(ac[k, r], ~(cw[k, r] == 0) if T.symbolic else cw[k, r] != 0), T.implies(cw[k, r] == 0, ~ac[k, r] if T.symbolic else not ac[k, r])]))
+
+
+# ------------------------------------------------------------------------------------ activity flags as the evaluator sees them
+def cases_activity_calls(tier):
+    for omf, cmf in (([-1], [0]), ([0], [-1]), ([0], [0]), (None, None), ([-1], [-1])):
+        for zero_cfg in (False, True):
+            yield "flt=%s,%s/configured-zero=%s" % (omf, cmf, zero_cfg), {"omf": omf, "cmf": cmf, "zero_cfg": zero_cfg}
+
+
+def scn_activity_calls(T, case):
+    """Function evaluation followed by a gradient-only evaluation at the same point (split evaluations): the flags handed to the
+    evaluator are compared with the weights in force for every (function, realization) entry."""
+    R, P, N, J, K = 3, 1, 1, 1, 1
+    inv = H.InvertContract(T) if T.symbolic else None
+    ch = H.Chain(T, stubs={(MG, "_invert_linear_equations"): inv} if T.symbolic else None)
+    pos = T.real("positive_weights", (R,), lo=0.001)
+    cfgw = T.np.array([pos[0], pos[1], 0.0 * pos[2] if case["zero_cfg"] else pos[2]])
+    fw = T.real("filter_weights", (R,), lo=0.001)
+    W = T.np.array([0.0 * fw[0], fw[1], fw[2]])  # the filter zeroes realization 0
+    x, S = T.real("x", (N,)), T.real("samples", (R, P, N))
+    vals = T.real("values", (R, P + 1, J + K))
+    sev = H.ScriptedEvaluator(T, ch, lambda v, r, p, k: vals[r, 0 if p is None or p < 0 else p + 1, :J], lambda v, r, p, k: vals[r, 0 if p is None or p < 0 else p + 1, J:])
+    cfg = H.make_config(T, R, J, K, N, weights=cfgw, ow=T.const(np.array([1.0])), P=P, min_success=1, pert_min_success=1, magnitudes=T.const(np.ones(N)),
+                        omap_flt=case["omf"], cmap_flt=case["cmf"])
+    ev = H.make_evaluator(T, ch, cfg, sev, filters=[H.AbstractFilter(W)], samplers=[H.FakeSampler(S)])
+    ev.calculate(x, compute_functions=True, compute_gradients=False)
+    ev.calculate(x, compute_functions=False, compute_gradients=True)
+    fctx, gctx = sev.calls[0]["context"], sev.calls[1]["context"]
+
+    def in_force(fmap):
+        return W if (fmap is not None and fmap[0] >= 0) else cfgw
+
+    # first (function) call: only the configured weights are known
+    for flags in (fctx.active_objectives, fctx.active_constraints):
+        for r in range(R):
+            zero = case["zero_cfg"] and r == 2
+            if flags is None:
+                T.prove("C06.calls.function_request.zero_configured_weights_are_flagged_inactive", not case["zero_cfg"])
+            else:
+                T.prove("C06.calls.function_request.inactive_only_if_configured_weight_is_zero", bool(flags[0, r]) == (not zero))
+    # gradient-only call after the function call: flags follow the weights in force per function
+    for name, flags, w in (("objective", gctx.active_objectives, in_force(case["omf"])), ("constraint", gctx.active_constraints, in_force(case["cmf"]))):
+        for r in range(R):
+            iszero = T.same(w[r], 0.0 * pos[0]) if T.symbolic else float(w[r]) == 0.0
+            if flags is None:
+                T.prove("C06.calls.split_gradient.every_zero_weight_%s_entry_is_flagged_inactive" % name, ~iszero if T.symbolic and not isinstance(iszero, (bool, np.bool_)) else not iszero)
+            else:
+                act = bool(flags[0, r])
+                T.prove("C06.calls.split_gradient.every_zero_weight_%s_entry_is_flagged_inactive" % name, T.implies(iszero, not act))
+                T.prove("C06.calls.split_gradient.%s_entries_inactive_only_if_weight_is_zero" % name, T.implies(not act, iszero) if not act else True)
 
 
 # ------------------------------------------------------------------------------------ inertness (relational)
@@ -330,6 +383,7 @@ def scn_inert(T, case):
 SCENARIOS = [
     Scenario("requests_labels_values_frame", scn_requests, cases_requests, {"quick": 3, "thorough": 20}),
     Scenario("activity_flags", scn_activity, cases_activity, {"quick": 10, "thorough": 60}),
+    Scenario("activity_flags_at_the_evaluator", scn_activity_calls, cases_activity_calls, {"quick": 5, "thorough": 40}),
     Scenario("inertness", scn_inert, cases_inert, {"quick": 5, "thorough": 40}),
 ]
 
